@@ -4,6 +4,8 @@ from ..terms import TermBuilder
 from .C09 import const_name
 
 REQUIRES = ['recipient']
+USES_QUERIES = True
+USES_KNOWN_VALUES = True
 EXPLANATION = (
     "FLOW/CODEC/GUARD rules. C10.1: in multi-recipient encryption the very same fresh SymmetricKey value (same creation site) is the "
     "key of encrypt_subject and the content key sealed for every recipient; the loop ranges over the whole recipients parameter; each "
